@@ -334,6 +334,16 @@ class World:
         self.last_obj = mk_event(s["ev"])
         return self.last_obj
 
+    def _own_id(self, s, b, ev, tid):
+        """The payload of a replace is an event the client was handed out earlier (it copies one event's content over
+        another): it carries the id of some live event of the bucket.  The addressed id is the argument's business."""
+        if "own_id" in s and not s.get("reuse_obj"):
+            oid = self.resolve(b, s["own_id"])
+            if oid is not None:
+                ev.id = oid
+                if oid != tid:
+                    self.probes["replace_payload_carries_other_id"] += 1
+
     def _bk(self, b):
         if b not in self.view:
             return None
@@ -407,6 +417,7 @@ class World:
             if tid is None:
                 return {"skipped": "empty"}
         ev = self._ev(s)
+        self._own_id(s, b, ev, tid)
         out = self._call(bk.replace, tid, ev)
         out["tid"] = tid
         out["passed"] = [ev]
@@ -424,6 +435,7 @@ class World:
         if not r:
             return {"skipped": "limit-1 read empty"}
         ev = self._ev(s)
+        self._own_id(s, b, ev, obs_event(r[0])[0])
         out = self._call(bk.replace_last, ev)
         out["newest"] = obs_event(r[0])
         out["passed"] = [ev]
